@@ -400,6 +400,17 @@ def _plausible(gen, vt, victim_is_server, stub):
                                              b'transfer-encoding') and h[0] not in ('te', b'te') and h[0]]
         return [C.mk_headers(sid, _enc(hl), rng.random() < 0.4, True, None, None)]
     if k <= 2 and not victim_is_server:
+        apr = gen.P.get('adv_push_response', 0)
+        if apr and rng.random() < apr:
+            # the responses on promised streams, one or all at once: each takes its stream out of 'reserved', so from
+            # then on it counts against the victim's acknowledged MAX_CONCURRENT_STREAMS (an h2 server would stop itself)
+            rsv = [s for s in live if s.state == 'rsvR']
+            if rsv:
+                rng.shuffle(rsv)
+                if rng.random() < 0.5:
+                    rsv = rsv[:1]
+                return [C.mk_headers(st.sid, _enc([(':status', rng.choice(['200', '404']))]), rng.random() < 0.3, True, None, None)
+                        for st in rsv]
         cands = [s for s in live if s.mine and not s.pushed and s.state in ('open', 'hcL') and s.recv in ('none', 'info')]
         if not cands:
             return []
